@@ -32,6 +32,11 @@ class VLoop(asyncio.AbstractEventLoop):
         self.step_hook = step_hook
         self._all_tasks: list = []
         self.executor_delay = None      # None: result on the next iteration; else a (possibly symbolic) duration per call
+        # timer lateness: the `late_timer[0]`-th timer created (0-based) fires `late_timer[1]` loop iterations after it fell due
+        # (a real loop only looks at its timers between iterations, and iterations take time)
+        self.late_timer = None
+        self._n_timers = 0
+        self._late_h, self._late_n = None, 0
 
     # ---- clock
     def time(self):
@@ -54,6 +59,9 @@ class VLoop(asyncio.AbstractEventLoop):
         if isinstance(when, (float, int)) and not isinstance(when, bool):
             when = Exact(when)
         h = events.TimerHandle(when, callback, args, self, context)
+        if self.late_timer is not None and self._n_timers == self.late_timer[0]:
+            self._late_h, self._late_n = h, int(self.late_timer[1])
+        self._n_timers += 1
         i = len(self._timers)
         # after every timer with when' <= when (ties: insertion order)
         while i > 0:
@@ -143,6 +151,7 @@ class VLoop(asyncio.AbstractEventLoop):
             self.n_jumps += 1
             self._steps_at_jump = self.n_steps
         now = self._now
+        held = []
         while timers:
             h = timers[0]
             if h._cancelled:
@@ -150,10 +159,17 @@ class VLoop(asyncio.AbstractEventLoop):
                 continue
             if h._when <= now:
                 timers.pop(0)
+                if h is self._late_h and self._late_n > 0 and self._ready:
+                    # this one is noticed a few iterations late (only while other callbacks keep the loop busy)
+                    self._late_n -= 1
+                    held.append(h)
+                    continue
                 h._scheduled = False
                 self._ready.append(h)
             else:
                 break
+        if held:
+            timers[0:0] = held
         for _ in range(len(self._ready)):
             h = self._ready.popleft()
             if h._cancelled:
